@@ -293,6 +293,12 @@ def _e2e(case, obs):
         obs.check(ok, "e2e_unexpected_abort", code=int(exc.exit_code), expect={k: v[3] for k, v in expect.items()})
         obs.nontrivial("e2e", case["i"])
         return
+    if res.functions is None:
+        # the evaluation ended without a value: right iff some filter's window selects no positive weight (rmin is 0 here)
+        obs.count("sort.e2e_too_few")
+        obs.nontrivial("e2e", case["i"])
+        obs.check(any(e[3] is not True for e in expect.values()), "e2e_unexpected_missing_functions", expect={k: v[3] for k, v in expect.items()}, failed=failed)
+        return
     if any(e[3] is False for e in expect.values()):
         obs.violation("e2e_value_instead_of_too_few", expect={k: v[3] for k, v in expect.items()}, failed=failed, weights=weights)
         return
